@@ -528,12 +528,12 @@ theorem parseName_good (d : List Nat) (p : P) (hi : p.Inv d) : GoodR d p.len (pa
 
 /-! ### the flat (compression-free) encoding parses back -/
 
-theorem parseU8_at' (d : List Nat) (p : P) (b : Nat) (B : List Nat) (h : d.drop p.pos = b :: B)
+theorem parseU8_atP (d : List Nat) (p : P) (b : Nat) (B : List Nat) (h : d.drop p.pos = b :: B)
     (hfit : p.pos + 1 ≤ p.len) (hd : p.len ≤ d.length) :
     parseU8 d p = .ok (b, ⟨p.pos + 1, p.len⟩) ∧ d.drop (p.pos + 1) = B := by
   cases p with | mk pos len => exact parseU8_at d pos len b B h hfit hd
 
-theorem take_at' (d : List Nat) (p : P) (A B : List Nat) (h : d.drop p.pos = A ++ B)
+theorem take_atP (d : List Nat) (p : P) (A B : List Nat) (h : d.drop p.pos = A ++ B)
     (hfit : p.pos + A.length ≤ p.len) (hd : p.len ≤ d.length) :
     take d p A.length = .ok (A, ⟨p.pos + A.length, p.len⟩) ∧ d.drop (p.pos + A.length) = B := by
   cases p with | mk pos len => exact take_at d pos len A B h hfit hd
@@ -543,7 +543,7 @@ theorem parseLabelType_normal (d : List Nat) (p : P) (n : Nat) (B : List Nat) (h
     (hfit : p.pos + 1 ≤ p.len) (hd : p.len ≤ d.length) :
     parseLabelType d p = .ok (.normal n, ⟨p.pos + 1, p.len⟩) := by
   unfold parseLabelType
-  rw [(parseU8_at' d p n B h hfit hd).1]
+  rw [(parseU8_atP d p n B h hfit hd).1]
   simp only [bind, Except.bind]
   rw [if_pos hn]; rfl
 
@@ -589,8 +589,8 @@ theorem nameRun_flat (d : List Nat) : ∀ (labels : List (List Nat)) (f : Nat) (
     have hdrop1 : d.drop s.p.pos = l.length :: (l ++ (encName ls ++ B)) := by
       rw [hdrop]; simp
     have hlt := parseLabelType_normal d s.p l.length _ hl1.2 hdrop1 (by omega) hd
-    have hd1 : d.drop (s.p.pos + 1) = l ++ (encName ls ++ B) := (parseU8_at' d s.p _ _ hdrop1 (by omega) hd).2
-    have htk := take_at' d ⟨s.p.pos + 1, s.p.len⟩ l (encName ls ++ B) hd1 (by simp only; omega) hd
+    have hd1 : d.drop (s.p.pos + 1) = l ++ (encName ls ++ B) := (parseU8_atP d s.p _ _ hdrop1 (by omega) hd).2
+    have htk := take_atP d ⟨s.p.pos + 1, s.p.len⟩ l (encName ls ++ B) hd1 (by simp only; omega) hd
     simp only at htk
     unfold nameRun
     rw [nameStep_eq, hlt]
@@ -673,8 +673,8 @@ theorem nameRun_labels (d : List Nat) : ∀ (labels : List (List Nat)) (f : Nat)
     have hdrop1 : d.drop s.p.pos = l.length :: (l ++ (encLabels ls ++ B)) := by
       rw [hdrop]; simp
     have hlt := parseLabelType_normal d s.p l.length _ hl1.2 hdrop1 (by omega) hd
-    have hd1 : d.drop (s.p.pos + 1) = l ++ (encLabels ls ++ B) := (parseU8_at' d s.p _ _ hdrop1 (by omega) hd).2
-    have htk := take_at' d ⟨s.p.pos + 1, s.p.len⟩ l (encLabels ls ++ B) hd1 (by simp only; omega) hd
+    have hd1 : d.drop (s.p.pos + 1) = l ++ (encLabels ls ++ B) := (parseU8_atP d s.p _ _ hdrop1 (by omega) hd).2
+    have htk := take_atP d ⟨s.p.pos + 1, s.p.len⟩ l (encLabels ls ++ B) hd1 (by simp only; omega) hd
     simp only at htk
     have hstep : nameRun (f + (l :: ls).length) d s
         = nameRun (f + ls.length) d { s with p := ⟨s.p.pos + 1 + l.length, s.p.len⟩, nameLen := s.nameLen + l.length + 1, acc := l :: s.acc } := by
@@ -729,7 +729,7 @@ theorem parseLabelType_bad (d : List Nat) (p : P) (t : Nat) (B : List Nat) (h1 :
     (h : d.drop p.pos = t :: B) (hfit : p.pos + 1 ≤ p.len) (hd : p.len ≤ d.length) :
     parseLabelType d p = .error .badLabel := by
   unfold parseLabelType
-  rw [(parseU8_at' d p t B h hfit hd).1]
+  rw [(parseU8_atP d p t B h hfit hd).1]
   simp only [bind, Except.bind]
   rw [if_neg (by omega), if_neg (by omega)]; rfl
 
@@ -737,8 +737,8 @@ theorem parseLabelType_ptr (d : List Nat) (p : P) (c lo : Nat) (B : List Nat) (h
     (h : d.drop p.pos = c :: lo :: B) (hfit : p.pos + 2 ≤ p.len) (hd : p.len ≤ d.length) :
     parseLabelType d p = .ok (.ptr (lo + c % 64 * 256), ⟨p.pos + 2, p.len⟩) := by
   unfold parseLabelType
-  have a := parseU8_at' d p c (lo :: B) h (by omega) hd
-  have b := parseU8_at' d ⟨p.pos + 1, p.len⟩ lo B a.2 (by simp only; omega) hd
+  have a := parseU8_atP d p c (lo :: B) h (by omega) hd
+  have b := parseU8_atP d ⟨p.pos + 1, p.len⟩ lo B a.2 (by simp only; omega) hd
   rw [a.1]
   simp only [bind, Except.bind]
   rw [if_neg (by omega), if_pos h1, b.1]; rfl
@@ -809,8 +809,8 @@ theorem parseName_rejects_long (d : List Nat) (p : P) (pre : List (List Nat)) (l
   rw [nameStep_eq, parseLabelType_normal d ((NS.init p).after pre).p l.length (l ++ B) hl2 hB (by simp only [NS.after, NS.init]; omega) hd]
   simp only
   rw [if_neg (by omega)]
-  have hd1 := (parseU8_at' d ⟨p.pos + (encLabels pre).length, p.len⟩ _ _ hB (by simp only; omega) hd).2
-  have htk := take_at' d ⟨p.pos + (encLabels pre).length + 1, p.len⟩ l B hd1 (by simp only; omega) hd
+  have hd1 := (parseU8_atP d ⟨p.pos + (encLabels pre).length, p.len⟩ _ _ hB (by simp only; omega) hd).2
+  have htk := take_atP d ⟨p.pos + (encLabels pre).length + 1, p.len⟩ l B hd1 (by simp only; omega) hd
   simp only [NS.after, NS.init]
   rw [htk.1]
   have e1 : 0 + (encLabels pre).length + l.length + 1 ≥ 255 := by omega
